@@ -303,6 +303,12 @@ func (a *Allocator) allocate(req *Request) (retErr error) {
 		return err
 	}
 
+	// nodes without memory can serve as a starting point (affinity) but are never part of a zone
+	req.zone &= a.masks.nodes.hasMemory
+	if req.zone == 0 {
+		return fmt.Errorf("%w: no nodes with memory for %s", ErrNoMem, req)
+	}
+
 	if err := a.startJournal(); err != nil {
 		return err
 	}
@@ -456,6 +462,9 @@ func (a *Allocator) validateRealloc(req *Request, nodes NodeMask, types TypeMask
 		// if both nodes and types are given, mask out nodes of other types
 		nodes &= a.masks.nodes.byTypes[types]
 	}
+
+	// nodes without memory are never part of a zone
+	nodes &= a.masks.nodes.hasMemory
 
 	return nodes, types, false, nil
 }
